@@ -120,3 +120,17 @@ def unary_family(x):
     if mod == 'adv':
         return {'ADV0', 'ADV1', 'ADV2'}
     return None
+
+
+NAMED_UNARY = {'ADNext', 'ADNint', 'ADV0', 'ADV1', 'ADV2'}
+
+
+def unary_plain(x):
+    """the clause (head atom) carries a feature triple whose mod value is neither adn nor adv: none of the five named
+    labels describes such an input"""
+    head = x
+    while head[0] == 'F':
+        head = head[1]
+    f = head[2]
+    return f is not None and f[0] == 'T' and dict(f[1]).get('mod') not in ('adn', 'adv', None) \
+        and not str(dict(f[1]).get('mod')).startswith('X')
